@@ -162,6 +162,15 @@ class WalkError(Exception):
     pass
 
 
+class EffectResult(object):
+    """returned by an effect hook to control havoc of &mut arguments"""
+    __slots__ = ("ret", "havoc")
+
+    def __init__(self, ret, havoc=False):
+        self.ret = ret
+        self.havoc = havoc
+
+
 class Budget(Exception):
     pass
 
@@ -174,7 +183,7 @@ INTRINSIC_BIN = {
 
 
 class Walker(object):
-    def __init__(self, prog, max_paths=20000, max_steps=3000000, loop_bound=2, max_depth=60):
+    def __init__(self, prog, max_paths=20000, max_steps=400000, loop_bound=2, max_depth=60):
         self.prog = prog
         self.max_paths = max_paths
         self.max_steps = max_steps
@@ -204,6 +213,8 @@ class Walker(object):
         ty = so.ty
         k = ty[0]
         name = so.name
+        if k == "adt" and (ty[1].endswith("vec::Vec") or ty[1].endswith("::VecDeque")) and ty[2]:
+            return SymArr(name, ty[2][0], tm.sym(name + ".len", 64))
         if k == "adt":
             adt = self.prog.adt(ty[1])
             if adt is None:
@@ -1242,7 +1253,7 @@ class Walker(object):
         if path is None:
             return self.do_effect(st, fr, "<indirect>", args, t, dest_obj, dest_proj, dest_ty)
         # closure calls through Fn* traits: untuple
-        if path in _FN_TRAIT_CALLS and args:
+        if _builtin_key(path) in _FN_TRAIT_CALLS and args:
             clo = args[0]
             target = clo
             if isinstance(clo, Ref):
@@ -1281,7 +1292,37 @@ class Walker(object):
                 fn = None
         if fn is None:
             return self.do_effect(st, fr, rpath, args, t, dest_obj, dest_proj, dest_ty)
+        if rpath.endswith("::deref") and (rpath + "::__static_ref_initialize") in self.prog.fns:
+            r = self.lazy_static(st, rpath)
+            return self.finish_builtin(st, fr, r, t, dest_obj, dest_proj, work)
         return self.enter(st, fr, fn, genv, args, (dest_obj, dest_proj), t)
+
+    def call_pure(self, st, fn, genv, args):
+        """Evaluate fn(args) on a copy of the state; it must have exactly one returning, effect-free path."""
+        s2 = st.copy()
+        s2.frames = []
+        s2.trace = []
+        rs = self.run(fn, list(args), genv=genv, state=s2)
+        good = [r for r in rs if r.outcome == "return"]
+        if len(rs) != 1 or len(good) != 1 or good[0].trace:
+            raise WalkError("call_pure(%s): %d paths, outcomes %s" % (fn.path, len(rs), [(r.outcome, r.detail) for r in rs][:3]))
+        return good[0].ret, good[0]
+
+    def lazy_static(self, st, deref_path):
+        """lazy_static!: the value is the result of __static_ref_initialize, folded by constant propagation"""
+        oid = ("lazy", deref_path)
+        if oid not in st.store:
+            cache = self.__dict__.setdefault("_lazy_cache", {})
+            if deref_path not in cache:
+                init = self.prog.fns.get(deref_path + "::__static_ref_initialize")
+                s2 = self.new_state()
+                rs = self.run(init, [], genv={}, state=s2)
+                good = [r for r in rs if r.outcome == "return"]
+                if len(rs) != 1 or len(good) != 1:
+                    raise WalkError("lazy static %s does not fold to one value" % deref_path)
+                cache[deref_path] = good[0].ret
+            st.store[oid] = cache[deref_path]
+        return Ref(oid, (), False)
 
     def enter(self, st, fr, fn, genv, args, dest, t):
         if self.trace_calls:
@@ -1321,13 +1362,19 @@ class Walker(object):
             st.trace.append(Effect(path, tuple(args), None, span, fr.fn.path, len(st.frames)))
             return self.finish(st, "panic", detail=("call", path, fr.fn.path, fr.fn.loc(span)))
         ret = None
+        havoc = True
         if self.effect_hook is not None:
             ret = self.effect_hook(self, st, path, args, dest_ty, (fr.fn, span))
+            if isinstance(ret, EffectResult):
+                havoc = ret.havoc
+                ret = ret.ret
         if ret is None:
             n = len(st.trace)
             ret = self.symval("ret%d:%s" % (n, path.split("::")[-1]), dest_ty)
         # havoc through &mut arguments
         for i, a in enumerate(args):
+            if not havoc:
+                break
             if isinstance(a, Ref) and a.mut:
                 cur = self.load(st, a.obj, a.proj)
                 if isinstance(cur, Opaque):
@@ -1383,10 +1430,7 @@ class PartialAgg(object):
 NOT_HANDLED = object()
 
 _FN_TRAIT_CALLS = {
-    "core::ops::function::Fn::call", "core::ops::function::FnMut::call_mut",
-    "core::ops::function::FnOnce::call_once",
     "core::ops::Fn::call", "core::ops::FnMut::call_mut", "core::ops::FnOnce::call_once",
-    "std::ops::Fn::call", "std::ops::FnMut::call_mut", "std::ops::FnOnce::call_once",
 }
 
 
@@ -1395,13 +1439,29 @@ import re as _re
 _INT_IMPL = _re.compile(r"^(?:core|std)::num::<impl ([iu](?:8|16|32|64|128|size))>::(\w+)$")
 
 
+_PRIV_MODS = _re.compile(r"\b(core|alloc|std)::(\w+)((?:::[a-z_0-9]+)+)::([A-Z]\w*)")
+_key_cache = {}
+
+
 def _builtin_key(path):
+    """normalised name used to look up models: private module segments of core/alloc are dropped
+    (core::iter::traits::iterator::Iterator -> core::iter::Iterator), std:: is core::"""
+    k = _key_cache.get(path)
+    if k is not None:
+        return k
     m = _INT_IMPL.match(path)
     if m:
-        return "int::" + m.group(2)
-    if path.startswith("std::"):
-        return "core::" + path[5:]
-    return path
+        k = "int::" + m.group(2)
+    else:
+        k = path
+        while True:
+            k2 = _PRIV_MODS.sub(r"\1::\2::\4", k)
+            if k2 == k:
+                break
+            k = k2
+        k = k.replace("std::", "core::")
+    _key_cache[path] = k
+    return k
 
 
 def int_ty_of_path(path):
